@@ -142,7 +142,11 @@ template <int S> static void explore(Ctx &c, long &id) {
         { long ww = w; for (int i = 0; i < N; ++i) { int l = ww % base; ww /= base; T[i] = (base == 3 ? L[l] : (l == 0 ? L[0] : L[2])) * sigmas[si]; } }
         Runner<S> r(c, unit);
         bool kkt = (N <= (th ? 4 : 3)) && alpha == 0 && D <= 2 && si < nreg;
-        r.run_case(N, T, kkt, (w % 3 == 0) ? 0.0 : (w % 3 == 1) ? -2.5 : 1024.125);
+        // start-time alphabet; letter 3 is a map-frame start (1.7e9 + 0.3) with the durations x 0.7, so that start + durations is NOT
+        // exact in double: a solver that re-derives segment lengths from the absolute knots is off by ~2e-7 (seeded change C02-m5)
+        const int tl = (int)((w + N) % 4); double t0v = tl == 0 ? 0.0 : tl == 1 ? -2.5 : tl == 2 ? 1024.125 : 1.7e9 + 0.3;
+        if (tl == 3) for (double &t : T) t *= 0.7;
+        r.run_case(N, T, kkt, t0v);
         ++c.st.evaluations;
         std::string key = fmt("S%d/a%d/N%d/w%ld/s%zu", S, alpha, N, w, si);
         if (!c.st.seen(key) && N >= 2) ++c.st.nontrivial;
